@@ -42,6 +42,15 @@ class AuthMonitor(Monitor):
             return None
         if meta.get("gen") == "replay":
             return None      # genuine bytes: authenticity is not in question (C04 judges replays)
+        key = conn.session_key_bytes
+        if key and len(datagram) >= R.HDR + R.TAG:
+            # "not produced with that key" is decided by the reference opener, not assumed: a chain of the attacker's own
+            # redirections (c0's hello re-sent from c1's address, the server's answer handed to c0) can make another
+            # client's ciphertext genuinely authentic for this connection - then the statement does not speak about it
+            h = R.dec_header(bytes(datagram[:R.HDR]))
+            if len(datagram) == R.HDR + h["length"] + R.TAG and R.open_gcm(key, bytes(datagram)) is not None:
+                self.w.probe("injected_datagram_is_authentic_under_the_target_key")
+                return None
         return (snapshot(conn), conn.stats.dropped, bool(conn.session_key_bytes), origin, meta)
 
     def post_recv(self, conn, hdr, datagram, pre, result):
